@@ -64,9 +64,11 @@ Definition names_complete (s : sync_shape) : bool :=
                     end) kinds_in_order
   && match ss_names s (ss_truth s) with Some (S _) => true | _ => false end.
 
-(* sync_properties: both files must exist *)
-Definition decide_sync_properties (input_exists output_exists : bool) : decision :=
-  if negb input_exists then Reject else if negb output_exists then Reject else Run.
+(* sync_properties: as many --input-param as --output-param (usage error since the /repo fix; the mismatch used to reach
+   a bare assert inside sync_properties and end in a traceback), and both files must exist *)
+Definition decide_sync_properties (counts_equal input_exists output_exists : bool) : decision :=
+  if negb counts_equal then Reject
+  else if negb input_exists then Reject else if negb output_exists then Reject else Run.
 
 (* gen: refuses an existing output by raising IOError *)
 Definition decide_gen (output_exists : bool) : decision :=
@@ -112,10 +114,10 @@ Definition run_cli (fn : sexp) (args : list sexp) : option sexp :=
     end
   else if is_sym "decide_sync_properties" fn then
     match args with
-    | [a; b] => match dec_bool a, dec_bool b with
-                | Some a, Some b => Some (enc_decision (decide_sync_properties a b))
-                | _, _ => None
-                end
+    | [c; a; b] => match dec_bool c, dec_bool a, dec_bool b with
+                   | Some c, Some a, Some b => Some (enc_decision (decide_sync_properties c a b))
+                   | _, _, _ => None
+                   end
     | _ => None
     end
   else if is_sym "decide_gen" fn then
